@@ -7,7 +7,9 @@ import re
 HERE = os.path.dirname(os.path.dirname(os.path.abspath(__file__)))
 SEEDED = os.path.join(HERE, "seeded")
 props = {json.loads(l)["id"]: json.loads(l) for l in open(os.path.join(HERE, "properties.jsonl"))}
-EXTRA = {  # seeded changes that are caught by a different property's check
+EXTRA = {  # seeded changes that are (also) caught by a different property's check
+    "C04-1": ("C06", "iwls:iwls_reported_acceptance_is_mh_ratio_with_gaussian_proposal_densities (the premise P2 of C04; since then C04 runs a reduced P2 conformance itself)"),
+    "C09-4": ("C13", "tau2:draw_is_from_the_inverse_gamma_full_conditional (same mechanism as C13-1; since then C09 runs the Gibbs start-state traces itself)"),
     "C15-2": ("C01", "graph:values_equal_spec:update_targets (targeted update in non-topological order is an update-semantics defect; C15's check reads the sort order only)"),
 }
 rows = []
